@@ -12,6 +12,8 @@
 (***************************************************************************)
 EXTENDS Rapid, Json
 
+CONSTANT Slack   \* one-sided allowance (ms) for upper time bounds
+
 VARIABLES l,    \* position of the next trace line
           tp    \* number of lifecycle events of st.tel already matched
 
@@ -37,7 +39,7 @@ Proc(t) == <<IF t.pk = "rt" THEN RtBase ELSE t.base, t.gen>>
 
 TBegin ==
     /\ Is("Begin")
-    /\ st' = State0(SetOf(T.files), SetOf(T.lf))
+    /\ st' = [State0(SetOf(T.files), SetOf(T.lf)) EXCEPT !.timeoutMs = T.timeoutMs, !.strictTimer = T.strict]
     /\ tp' = 0 /\ Adv
 
 TInitCall ==
@@ -107,6 +109,10 @@ TInvokeRet ==
     /\ st.cl[T.caller].k = T.k
     /\ st.cl[T.caller].out = T.out
     /\ st.cl[T.caller].body = T.body
+    \* the timer runs for the configured function timeout; every invocation is answered within
+    \* timeout + reset allowance (2 s) + exit grace (2 s) + slack
+    /\ (T.out = "InvokeTimeout" => T.dur >= st.timeoutMs)
+    /\ T.dur <= st.timeoutMs + 4000 + Slack
     /\ st' = CallerReturnDo(st, T.caller)
     /\ UNCHANGED tp /\ Adv
 
@@ -178,7 +184,7 @@ Internal ==
             \/ Step(CallerFastInvokeEn(st, c), CallerFastInvokeDo(st, c))
             \/ Step(CallerDoneOkEn(st, c), CallerDoneOkDo(st, c))
             \/ Step(CallerDoneFailEn(st, c), CallerDoneFailDo(st, c))
-            \/ Step(CallerTimeoutEn(st, c), CallerTimeoutDo(st, c))
+            \/ Step(CallerTimeoutEn(st, c) /\ (st.strictTimer => ~Urgent(st)), CallerTimeoutDo(st, c))
             \/ Step(CallerAfterResetEn(st, c), CallerAfterResetDo(st, c))
        \/ Step(ResetCancelEn(st), ResetCancelDo(st))
        \/ Step(ResetLockEn(st), ResetLockDo(st))
